@@ -32,6 +32,11 @@ def run(ctx):
     # rejected messages in between: what the decoder releases on its error paths decides whether two later
     # messages share a buffer
     wirefam.check_pool(ctx, o2, "generated and mutated messages")
+    # the records and messages of the codec are pooled objects: the same decodings, made by many goroutines at once
+    t3 = ctx.path("conc.ndjson")
+    ctx.driver(drv, ["-out", t3, "-conc", 6000 if ctx.quick else 60000])
+    ctx.validate("WireTrace", t3, wirefam.keyfn, describe=wirefam.describe, only=["Inv_C02_", "Unconsumable"],
+                 timeout=3000, require_events=24)
     ctx.extra["tlc_messages_replayed"] = len(stims)
     ctx.assumptions += [
         "the specification's decoder is an independent implementation written from RFC 1035 with the proxy's limits; the reserved Z header bit is not a header field",
